@@ -74,22 +74,24 @@ type step struct {
 }
 
 type scenario struct {
-	Kind           string   `json:"kind"` // smtp submission lmtp
-	Defer          bool     `json:"defer_sender_reject"`
-	NT             int      `json:"targets"`
-	Partial        []bool   `json:"partial"`
-	DefaultDeliver bool     `json:"default_deliver"`
-	Limits         bool     `json:"limits"`
-	LimitLines     []string `json:"limit_lines,omitempty"` // group L: the directives of the limits block (several limiters per scope)
-	ModRule        string   `json:"mod_rule"` // none plus move fanout
-	MaxReceived    int      `json:"max_received"`
-	MaxHeader      int      `json:"max_header"`
-	MaxMsg         int      `json:"max_msg"`
-	Faults         []fault  `json:"faults"`
-	Steps          []step   `json:"steps"`
-	End            string   `json:"end"` // quit halfclose rst close
-	Config         string   `json:"config"`
-	Features       []string `json:"features"`
+	Kind           string       `json:"kind"` // smtp submission lmtp
+	Defer          bool         `json:"defer_sender_reject"`
+	NT             int          `json:"targets"`
+	Partial        []bool       `json:"partial"`
+	DefaultDeliver bool         `json:"default_deliver"`
+	Limits         bool         `json:"limits"`
+	LimitLines     []string     `json:"limit_lines,omitempty"`  // group L: the directives of the limits block (several limiters per scope)
+	ModRule        string       `json:"mod_rule"`               // none plus move fanout
+	Alias          []aliasEntry `json:"alias,omitempty"`        // static replace_rcpt tables (alias_test.go)
+	AliasSource    string       `json:"alias_source,omitempty"` // how the source-scope table is placed: default_source | source+default_source
+	MaxReceived    int          `json:"max_received"`
+	MaxHeader      int          `json:"max_header"`
+	MaxMsg         int          `json:"max_msg"`
+	Faults         []fault      `json:"faults"`
+	Steps          []step       `json:"steps"`
+	End            string       `json:"end"` // quit halfclose rst close
+	Config         string       `json:"config"`
+	Features       []string     `json:"features"`
 }
 
 func (sc *scenario) lmtp() bool       { return sc.Kind == "lmtp" }
@@ -154,9 +156,8 @@ func (sc *scenario) rewrite(local, domain string) [][2]string {
 func (sc *scenario) targetsOf(local, domain string) []int {
 	seen := map[int]bool{}
 	var out []int
-	for _, a := range sc.rewrite(local, domain) {
-		ts, _ := sc.route(a[1])
-		for _, t := range ts {
+	for _, a := range sc.resolve(local, domain) {
+		for _, t := range a.Targets {
 			if !seen[t] {
 				seen[t] = true
 				out = append(out, t)
@@ -204,9 +205,15 @@ func (sc *scenario) configText(id string) string {
 		b.WriteString("limits {\n all concurrency 1\n ip concurrency 1\n source concurrency 1\n}\n")
 	}
 	b.WriteString("check {\n c03chk " + id + "\n}\n")
+	// global modifiers: the static alias table first, then the scripted modifier
+	scripted := ""
 	if sc.ModRule != "" {
-		b.WriteString("modify {\n c03mod " + id + "\n}\n")
+		scripted = " c03mod " + id + "\n"
 	}
+	b.WriteString(sc.aliasBlock("global", "", scripted))
+	var top strings.Builder
+	top.WriteString(b.String())
+	b.Reset()
 	tgt := func(ts ...int) string {
 		s := ""
 		for _, t := range ts {
@@ -220,15 +227,26 @@ func (sc *scenario) configText(id string) string {
 		if d == "a.example" {
 			names += " " + idnA
 		}
-		b.WriteString("destination " + names + " {\n" + tgt(ts...) + "}\n")
+		b.WriteString("destination " + names + " {\n" + sc.aliasBlock("dest", d, "") + tgt(ts...) + "}\n")
 	}
 	b.WriteString("destination rej.example {\n reject 550 5.1.1 \"no such user here\"\n}\n")
 	if sc.DefaultDeliver {
-		b.WriteString("default_destination {\n" + tgt(sc.NT-1) + "}\n")
+		b.WriteString("default_destination {\n" + sc.aliasBlock("dest", "default", "") + tgt(sc.NT-1) + "}\n")
 	} else {
 		b.WriteString("default_destination {\n reject 554 5.7.1 \"relay denied\"\n}\n")
 	}
-	return b.String()
+	// the destination blocks: at the top level, or inside source blocks when the source scope has a table
+	body := b.String()
+	switch sc.AliasSource {
+	case "":
+		top.WriteString(body)
+	case "default_source":
+		top.WriteString("default_source {\n" + sc.aliasBlock("source", "", "") + body + "}\n")
+	default:
+		top.WriteString("source s1.example " + idnA + " {\n" + sc.aliasBlock("source", "", "") + body + "}\n")
+		top.WriteString("default_source {\n" + sc.aliasBlock("source", "", "") + body + "}\n")
+	}
+	return top.String()
 }
 
 // ---- generator ----
